@@ -8,6 +8,7 @@ from .. import comp, e1, harness, ic10
 from . import base
 
 PROP = "C12"
+SOLVER = {'functions_encoded': ['utils.eval_constexpr (executed, child process)', 'emitted IC10 -> vf.ic10.Machine vs source -> vf.source.Interp with the decorated functions evaluated by Python']}
 HDR = base.witness.HDR
 
 ASSUMPTIONS = [
